@@ -62,7 +62,7 @@ func c13LongRun(c c13Long, seed string) (sig, msg string, stt c13LongStats, inco
 	}
 	live := func() map[ref.Hash]bool {
 		m := map[ref.Hash]bool{}
-		s, err := book.VerifSnapshot()
+		s, err := sim.RawSnapshot(book)
 		if err != nil {
 			return m
 		}
@@ -109,16 +109,16 @@ func c13LongRun(c c13Long, seed string) (sig, msg string, stt c13LongStats, inco
 			aerr := book.AddLeaf(bg, &cp)
 			if !errors.Is(aerr, accountant.ErrParentDoesNotExists) {
 				if errors.Is(aerr, accountant.ErrLeafRejected) {
-					return "orphan-not-parked", fmt.Sprintf("round %d (%s of %d, node has done %d retries so far, %d parked now): a child delivered before its parent was refused (%v) instead of being parked", ri, r.Shape, r.N, stt.pops, len(book.VerifParkedList()), aerr), stt, ""
+					return "orphan-not-parked", fmt.Sprintf("round %d (%s of %d, node has done %d retries so far, %d parked now): a child delivered before its parent was refused (%v) instead of being parked", ri, r.Shape, r.N, stt.pops, len(sim.ParkedList(book)), aerr), stt, ""
 				}
 				return "missing-parent-not-reported", fmt.Sprintf("round %d: child delivered before its parent returned %v", ri, aerr), stt, ""
 			}
 		}
-		if n := len(book.VerifParkedList()); n > stt.maxParked {
+		if n := len(sim.ParkedList(book)); n > stt.maxParked {
 			stt.maxParked = n
 		}
 		pop := func() error {
-			pl := book.VerifParkedList()
+			pl := sim.ParkedList(book)
 			if len(pl) == 0 {
 				return nil
 			}
@@ -141,7 +141,7 @@ func c13LongRun(c c13Long, seed string) (sig, msg string, stt c13LongStats, inco
 		if r.Shape == "rchain" {
 			bound = r.N*(r.N+1)/2 + 2
 		}
-		for k := 0; k < bound && len(book.VerifParkedList()) > 0; k++ {
+		for k := 0; k < bound && len(sim.ParkedList(book)) > 0; k++ {
 			if g := pop(); g != nil {
 				return "", "", stt, "retry: " + g.Error()
 			}
@@ -156,9 +156,9 @@ func c13LongRun(c c13Long, seed string) (sig, msg string, stt c13LongStats, inco
 			if myRetry[k.Hash]+ticks+2 >= 25 {
 				return "", "", stt, fmt.Sprintf("round %d: vertex may have used up its retries (%d by the harness, up to %d by the ticker)", ri, myRetry[k.Hash], ticks)
 			}
-			return "vertex-lost", fmt.Sprintf("round %d (%s of %d children, %d passes; the node had done %d retries over its lifetime, at most %d parked at once): child %x was parked, its parent arrived, and after %d retries of its own it is neither in the ledger nor parked=%v", ri, r.Shape, r.N, r.Passes, stt.pops, stt.maxParked, k.Hash[:4], myRetry[k.Hash], len(book.VerifParkedList()) > 0), stt, ""
+			return "vertex-lost", fmt.Sprintf("round %d (%s of %d children, %d passes; the node had done %d retries over its lifetime, at most %d parked at once): child %x was parked, its parent arrived, and after %d retries of its own it is neither in the ledger nor parked=%v", ri, r.Shape, r.N, r.Passes, stt.pops, stt.maxParked, k.Hash[:4], myRetry[k.Hash], len(sim.ParkedList(book)) > 0), stt, ""
 		}
-		if n := len(book.VerifParkedList()); n > 0 {
+		if n := len(sim.ParkedList(book)); n > 0 {
 			return "buffer-not-drained", fmt.Sprintf("round %d: %d vertices still parked although every parent is present", ri, n), stt, ""
 		}
 		anchor = kids[len(kids)-1].Hash
